@@ -18,6 +18,7 @@ import (
 	_ "verifharness/props/c13"
 	_ "verifharness/props/c14"
 	_ "verifharness/props/c17"
+	_ "verifharness/props/c20"
 )
 
 func main() { mc.Main() }
